@@ -54,4 +54,9 @@ GCM = dict(
            for o in (0, 1, 5, 15, 16) for n in (1, 5, 15, 16, 17, 32, 33, 37) for d in (0, 1) for ip in (0, 1)],
 )
 HARNESSES = [GCM, MD(256), MD(1), MD(512), MD(5, tier_hash="thorough"), HMAC(5, 64), HMAC(1, 64), HMAC(256, 64), HMAC(384, 128)]
-PROPERTY = dict(level="model_checking", explanation="", bounds="", outside="", assumptions=[])
+PROPERTY = dict(level='model_checking',
+    claim='Modulo the compression/block functions (logging stubs): digest buffering, padding and length encoding (inductive step covering every split), HMAC per RFC 2104 incl. long keys, GCM CTR/GHASH streaming core independent of the split.',
+    bounds='every enumerated (curlen, n) pair of the quick set (thorough: all 64x131 for SHA-256), key lengths around the block size, GCM lengths <= 37',
+    outside='the compression functions, AES, GHASH multiplication, ChaCha20-Poly1305, HKDF, PBKDF2, CBC modes; lengths beyond the bounds',
+    explanation='Modulo the compression/block functions (logging stubs): digest buffering, padding and length encoding (inductive step covering every split), HMAC per RFC 2104 incl. long keys, GCM CTR/GHASH streaming core independent of the split.',
+    assumptions=[])
